@@ -1,5 +1,6 @@
 import FxVerif.Proofs.C04Acct
 import FxVerif.Proofs.C04EscStep
+import FxVerif.Proofs.C04Wd
 import FxVerif.Gen.C04
 /-!
 # C04 — bridge solvency: holdings + in-flight = initial + deposits − executed withdrawals; operations move only what
@@ -438,5 +439,47 @@ theorem withdrawable_partial (k : Kind) (hk : k ≠ .moduleOwned) (g c u n : Nat
     have hba : ¬ (Asset.base g = Asset.bridge g c) := by simp
     simp [baseCoinToBridgeToken, conversionCoin, withdrawBridgeToken, runFlow, applyPrim, h1, h2, ownerOk, hown.1,
       hown.2, Ledger.setBal, Ledger.setSupply, upd, hne, hne', hab, hba, M, h3, Nat.not_lt.mpr (Nat.le_add_left n _)]
+
+/-- **`withdrawable` for every reachable state, all locking tokens** (the full-strength `Withdrawable` with the single
+restriction `k ≠ moduleOwned`; for module-owned tokens it is false, see the witnesses): from every initial ledger whose
+supplies bound its balances and whose bank coins have no ERC-20 owner (`LedgerOk`: true of every real ledger), after
+every operation sequence, a holder's `MsgSendToExternal` of any positive amount + fee up to the balance, through any
+chain the token is bridged on, succeeds.  No hypothesis on the reached state: `LedgerOk` is an invariant of all 18
+operations (`runOps_ledgerOk`). -/
+theorem withdrawable_reachable_partial (cfg : Cfg) (L : Ledger) (hL : LedgerOk L) (e0 : Nat → Nat → Nat) (ops : List Op)
+    (c g u n fee : Nat) (k : Kind) (hk : bridged cfg g c = some k) (hlock : k ≠ .moduleOwned) (hn : 0 < n)
+    (hf : 0 < fee) (hb : n + fee ≤ baseBal (runOps cfg (initE L e0) ops) g u) :
+    ∃ s', step cfg (runOps cfg (initE L e0) ops) (.send c g u n fee) = .ok s' := by
+  have hok := runOps_ledgerOk cfg ops (initE L e0) hL
+  generalize runOps cfg (initE L e0) ops = s at hb hok
+  obtain ⟨hbd, ho1, ho2⟩ := hok
+  have hs : s.L.bal (.base g) (U u) + s.L.bal (.base g) (M c) ≤ s.L.supply (.base g) := by
+    have := hbd (.base g) [U u, M c] (by simp [U, M])
+    simpa [sumL] using this
+  obtain ⟨L', hL'⟩ := withdrawable_partial k hlock g c u (n + fee) s.L ⟨ho1 g, ho2 g c⟩ hb hs
+  have hc : c < nChains := by
+    unfold bridged at hk; split at hk
+    · rename_i h; exact h.1
+    · cases hk
+  have hnz : ¬ (n = 0 ∨ fee = 0) := by omega
+  have hrun : run s (baseCoinToBridgeToken k g c (U u) (n + fee)) = .ok { s with L := L' } := by
+    simp only [run, hL']
+  simp only [step, Op.chain?, hc, ↓reduceIte, stepCore, hnz, hk, bind, Except.bind, hrun, pure, Except.pure]
+  exact ⟨_, rfl⟩
+
+/-- non-vacuity of `withdrawable_reachable_partial`: the ledger of the examples is `LedgerOk`, and after a history with
+a pending batch and a deposit user 0 still holds FX to send -/
+example : LedgerOk { ledgerE with bal := fun a x => if a = .base 0 ∧ x = U 0 then 1000 else 0, supply := fun a => if a = .base 0 then 1000 else 0 } := by
+  refine ⟨?_, fun _ => rfl, fun _ _ => rfl⟩
+  intro a l hn
+  by_cases ha : a = .base 0
+  · subst ha
+    have := sumL_single (U 0) 1000 l hn
+    simpa using this
+  · have : sumL (fun x => if a = Asset.base 0 ∧ x = U 0 then 1000 else 0) l = 0 := by
+      induction l with
+      | nil => rfl
+      | cons b bs ih => simp only [sumL]; rw [ih (List.nodup_cons.mp hn).2]; simp [ha]
+    simp [this]
 
 end FxVerif.Props.C04
